@@ -27,7 +27,7 @@ FLAVOURS = {
               ["mptcore", "mptio", "mptplot", "mptloader", "mpt++"]),
     "fuzz": ("clang-14", "clang++-14",
              "-O1 -g -fno-omit-frame-pointer -fsanitize=fuzzer-no-link,address,undefined "
-             "-fno-sanitize=alignment,nonnull-attribute,object-size,function,pointer-overflow "
+             "-fno-sanitize=alignment,nonnull-attribute,object-size,function,pointer-overflow,null,bounds "
              "-fno-sanitize-recover=all -D%s" % GUARD,
              ["mptcore", "mptio", "mptplot"]),
 }
